@@ -184,6 +184,9 @@ def run_shard(sh, n):
             start = start0
         else:
             rules = gen.gen_rules(rnd, gcfg)
+            twins = len(rules) >= 2 and rnd.random() < 0.3
+            if twins:
+                rules = gen.underscore_twins(rnd, rules)
             start0 = rules[0][0]
             deco = {}
             if rnd.random() < 0.35:
@@ -212,6 +215,8 @@ def run_shard(sh, n):
             d, info = check(gtext, start, text, lr, model, pick)
             nt = info.get('saved', 0) > 0 or '\n' in text or ('~' in gtext and info.get('base') == 'ok')
             cls = ['lr' if lr else 'non-lr', f'base:{info.get("base")}']
+            if not lr and twins:
+                cls.append('rule names that differ only in underscores')
             if not lr and deco:
                 cls.append('has @nomemo/@nostak rules')
             if info.get('saved', 0) > 0:
